@@ -525,8 +525,8 @@ def gen_pre(rng, ro: bool, wops) -> List[Any]:
 def gen_cases(ctx) -> List[Dict[str, Any]]:
     rng = ctx.rng
     cases = fixed_cases()
-    ntarget = ctx.budget(90, 1300)
-    nrand = ctx.budget(200, 3300)
+    ntarget = ctx.budget(110, 1400)
+    nrand = ctx.budget(250, 3500)
     maxops = ctx.budget(18, 32)
     for i in range(ntarget + nrand):
         keys, attr_keys = pick_keys(rng, 3, 5)
